@@ -5,7 +5,11 @@ prop("C01", True, "A",
      "Trusted: the monitor's bookkeeping model (engine/src/props/c01.rs). Sequential use only (schedules: C05/C06). Detection lists off the menu and deeper histories are not covered.",
      "7/C01")
 prop("C02", False, "A+C", "", "", NB, "7/C02")
-prop("C03", False, "A", "", "", NB, "7/C03")
+prop("C03", True, "A",
+     "exhaustive enumeration of all operation histories (predict incl. empty, skip, wasted, clear_wasted, set_auto_waste; idle / epochs / shard statistics / both store dumps observed after every step) up to depth 4 (5 thorough) on the real trackers against a reference model of track places, run in lock-step on three instances with collection period 100 / 0 / 1 (differential oracle)",
+     "Every history of the bounded space is executed on three real tracker instances; each is compared with the model (continuation of unexpired tracks only, exact wasted set delivered once, idle set, epochs, conservation through the shard statistics, every held track in exactly one store) and the three transcripts must be identical.",
+     "Trusted: the reference model (engine/src/props/c03.rs). Identical / disjoint boxes make association unambiguous. Sequential use under the default schedule.",
+     "7/C03")
 prop("C04", False, "A", "", "", NB, "7/C04")
 prop("C05", False, "A+B", "", "", NB, "7/C05")
 prop("C06", False, "B", "", "", NB, "7/C06")
